@@ -395,13 +395,28 @@ func pkgWrites(repo string, dirs []string) []map[string]string {
 					}
 				}
 			}
+			// functions handed to sync.Once.Do by name run at most once, synchronised
+			onceFuncs := map[string]bool{}
+			for _, f := range pkg.Files {
+				ast.Inspect(f, func(n ast.Node) bool {
+					if c, ok := n.(*ast.CallExpr); ok {
+						if sel, ok := c.Fun.(*ast.SelectorExpr); ok && sel.Sel.Name == "Do" && len(c.Args) == 1 {
+							if id, ok := c.Args[0].(*ast.Ident); ok {
+								onceFuncs[id.Name] = true
+							}
+						}
+					}
+					return true
+				})
+			}
 			for fname, f := range pkg.Files {
 				if f.Name.Name == "main" {
 					continue
 				}
 				for _, d := range f.Decls {
 					fd, ok := d.(*ast.FuncDecl)
-					if !ok || fd.Body == nil || (fd.Name.Name == "init" && fd.Recv == nil) || fd.Name.Name == "initPoints" {
+					if !ok || fd.Body == nil || (fd.Name.Name == "init" && fd.Recv == nil) || fd.Name.Name == "initPoints" ||
+						(fd.Recv == nil && onceFuncs[fd.Name.Name]) {
 						continue
 					}
 					locals := map[string]bool{}
